@@ -31,8 +31,13 @@ impl ReaderState {
         &&& self.opened_starts == o.opened_starts
     }
 
+//@if encoding
+    /// the decoder of a reader state: that of its current encoding
+    pub open(crate) spec fn decoder_spec(&self) -> Decoder { Decoder { encoding: self.encoding.spec_encoding() } }
+//@else
     /// the decoder of a reader state (no `encoding` feature: there is exactly one)
     pub open spec fn decoder_spec(&self) -> Decoder { Decoder {} }
+//@endif
 
     pub proof fn lemma_pop_truncate(pre: &ReaderState, post: &ReaderState)
         requires pre.wf(), pre.opened_starts@.len() > 0,
@@ -171,8 +176,30 @@ pub open spec fn double_hyphen_at(buf: Seq<u8>, p: int) -> bool {
     3 <= p < buf.len() - 2 && buf[p] == 0x2d && buf[p + 1] == 0x2d
 }
 
+//@if encoding
+/// C17, precedence of encoding sources: Implicit (default) < BomDetected (sniffed) < XmlDetected (declared, final);
+/// Explicit (reader built from a &str) is final.
+/// The encoding after an event: an XML declaration naming a known encoding refines a refinable choice
+pub open spec fn decl_refines<'b>(a: EncodingRef, r: core::result::Result<Event<'b>, Error>) -> EncodingRef {
+    match r {
+        Ok(Event::Decl(d)) => if (a is Implicit || a is BomDetected) && spec_encoder(d.content.buf@) is Some {
+                EncodingRef::XmlDetected(spec_encoder(d.content.buf@)->Some_0)
+            } else { a },
+        _ => a,
+    }
+}
+/// The encoding after the sniff of the first bytes reported `benc`: it replaces a refinable choice only
+pub open spec fn bom_step(a: EncodingRef, benc: Option<u8>, b: EncodingRef) -> bool {
+    if (a is Implicit || a is BomDetected) && benc is Some {
+        b is BomDetected && b.spec_encoding().id == benc->Some_0
+    } else { b == a }
+}
+//@endif
 spec fn post_emit_bang<'b>(pre: &ReaderState, post: &ReaderState, bang_type: BangType, buf: Seq<u8>, r: core::result::Result<Event<'b>, Error>) -> bool {
                 &&& post.same_control(pre) && post.same_stack(pre)
+//@if encoding
+                &&& post.encoding == pre.encoding
+//@endif
                 &&& r is Ok ==> post.last_error_offset == pre.last_error_offset
                 &&& r is Err ==> post.last_error_offset <= post.offset
                 &&& post_emit_bang_(pre, post, bang_type, buf, r)
@@ -202,6 +229,9 @@ spec fn post_emit_bang_<'b>(pre: &ReaderState, post: &ReaderState, bang_type: Ba
 
 spec fn post_emit_end<'b>(pre: &ReaderState, post: &ReaderState, buf: Seq<u8>, r: core::result::Result<Event<'b>, Error>) -> bool {
                 &&& post.wf() && post.same_control(pre)
+//@if encoding
+                &&& post.encoding == pre.encoding
+//@endif
                 &&& r is Ok ==> post.last_error_offset == pre.last_error_offset
                 &&& r is Err ==> post.last_error_offset <= post.offset
                 &&& post_emit_end_(pre, post, buf, r)
@@ -231,6 +261,11 @@ spec fn post_emit_end_<'b>(pre: &ReaderState, post: &ReaderState, buf: Seq<u8>, 
 
 spec fn post_emit_question_mark<'b>(pre: &ReaderState, post: &ReaderState, buf: Seq<u8>, r: core::result::Result<Event<'b>, Error>) -> bool {
                 &&& post.same_control(pre) && post.same_stack(pre)
+//@if encoding
+                // C17: only an XML declaration that names an encoding changes it, and only when the current choice
+                // may still be refined: never one fixed by from_str (Explicit) nor by an earlier declaration
+                &&& post.encoding == decl_refines(pre.encoding, r)
+//@endif
                 &&& r is Err ==> post.last_error_offset <= post.offset
                 &&& r matches Ok(ev) ==> ev_wf(ev)
                 &&& post_emit_question_mark_(pre, post, buf, r)
@@ -253,6 +288,9 @@ spec fn post_emit_question_mark_<'b>(pre: &ReaderState, post: &ReaderState, buf:
 
 spec fn post_emit_start<'b>(pre: &ReaderState, post: &ReaderState, content: Seq<u8>, r: Event<'b>) -> bool {
                 &&& post.wf() && post.offset == pre.offset && post.config == pre.config
+//@if encoding
+                &&& post.encoding == pre.encoding
+//@endif
                 &&& post.last_error_offset == pre.last_error_offset
                 &&& ev_wf(r)
                 &&& post_emit_start_(pre, post, content, r)
